@@ -110,4 +110,33 @@ theorem triangle_path (ax ay bx by' cx cy : K)
   simp [polyPoints, lineTo, moveTo, close, pos, startPos, ptEquals, PCmd.endp, prep, opsK, arithK,
     hab, hbc, hca, e1, e2]
 
+theorem roundedRectangle_path (W h r : K) (hr : 0 < r) (heps : (0 : K) ≤ Env.epsilon)
+    (hW0 : GenK.Equal W 0 = false) (hh0 : GenK.Equal h 0 = false) (hr0 : GenK.Equal r 0 = false)
+    (hA : GenK.Equal r (W - r) = false) (hB : GenK.Equal r (h - r) = false)
+    (hC : GenK.Equal (h - r) h = false)
+    (hrW : r ≤ W / 2) (hrh : r ≤ h / 2) :
+    (roundedRectangle (opsK cd) W h r).reverse =
+      [.move ⟨0, r⟩, .arc r r 0 false true ⟨r, 0⟩, .line ⟨W - r, 0⟩, .arc r r 0 false true ⟨W, r⟩,
+       .line ⟨W, h - r⟩, .arc r r 0 false true ⟨W - r, h⟩, .line ⟨r, h⟩, .arc r r 0 false true ⟨0, h - r⟩,
+       .close ⟨0, r⟩] := by
+  have h0r : GenK.Equal 0 r = false := by rw [equal_comm]; exact hr0
+  have hD : GenK.Equal (W - r) r = false := by rw [equal_comm]; exact hA
+  have hnl : ¬ r < 0 := not_lt.mpr (le_of_lt hr)
+  have af : ∀ s e : Pt K, arcFixK s r r e = (r, r, 0) := fun s e => arcFix_circle s e r hr heps
+  have m1 : min r (W / 2) = r := min_eq_left hrW
+  have m2 : min r (h / 2) = r := min_eq_left hrh
+  simp [roundedRectangle, arcTo0, lineTo, moveTo, close, pos, startPos, ptEquals, prep, PCmd.endp, opsK, arithK,
+    hW0, hh0, hr0, h0r, hA, hB, hC, hD, hnl, af, m1, m2]
+
+/-- scaling a circular corner of radius r by s > 0 in x gives the elliptical corner (s r) x r, larger radius first -/
+theorem transformArc_scaleX (s r : K) (hs : 0 < s) (hr : 0 < r) (sweep : Bool) :
+    transformArcK (Matrix.Scale identK s 1) r r 0 sweep =
+      (if s * r < r then (r, s * r, Env.pi / 2, sweep) else (s * r, r, 0, sweep)) := by
+  have hn : ¬ (s < 0) := not_lt.mpr (le_of_lt hs)
+  simp [transformArcK, Matrix.Scale, Matrix.Mul, identK, abs_of_pos hs, hn]
+
+theorem transformPath_reverse (m : Mat K) (cs : RPath K) :
+    (transformPath (opsK cd) m cs).reverse = transformPath (opsK cd) m cs.reverse := by
+  unfold transformPath; rw [List.map_reverse]
+
 end C19
